@@ -169,7 +169,7 @@ func (in *c13Inst) Enabled() []string {
 			ops = append(ops, fmt.Sprintf("DeallocNW(%d,%d)", in.creator[p], p))
 		}
 	}
-	ops = append(ops, "FlushAll()")
+	ops = append(ops, "FlushAll()", "FlushAllPages()")
 	return ops
 }
 
@@ -217,6 +217,8 @@ func (in *c13Inst) Apply(op string) (viol *core.Violation) {
 		kind = "Flush"
 	case op == "FlushAll()":
 		kind = "FlushAll"
+	case op == "FlushAllPages()":
+		kind = "FlushAllPages"
 	case scan(op, "DeallocSL(%d,%d)", &u, &pi):
 		kind = "DeallocSL"
 	case scan(op, "DeallocNW(%d,%d)", &u, &pi):
@@ -292,6 +294,8 @@ func (in *c13Inst) Apply(op string) (viol *core.Violation) {
 		in.bpm.FlushPage(p)
 	case "FlushAll":
 		in.bpm.FlushAllDirtyPages()
+	case "FlushAllPages":
+		in.bpm.FlushAllPages() // what shutdown does
 	case "DeallocSL":
 		// skip-list style: mark, return the pin, then log the deallocation; the frame is reclaimed lazily
 		in.pins[u][p].SetIsDeallocated(true)
@@ -371,6 +375,17 @@ func (in *c13Inst) invariants(kind string, bad func(string, string) *core.Violat
 			// I3 (resident)
 			if got := tagOf(frames[f].Data()); got != in.latest[p] {
 				return bad("resident-bytes", fmt.Sprintf("resident page %d holds tag %#x, latest written %#x", p, got, in.latest[p]))
+			}
+			// I4: a resident page that nobody has pinned and that is not marked dirty will be dropped without
+			// a write when it becomes a victim: the disk must already hold its latest bytes
+			if want == 0 && !frames[f].IsDirty() {
+				buf := make([]byte, common.PageSize)
+				if err := in.dm.ReadPage(p, buf); err != nil {
+					return bad("clean-page-not-on-disk", fmt.Sprintf("page %d is resident, unpinned and clean but not readable from disk: %v", p, err))
+				}
+				if got := binary.LittleEndian.Uint32(buf[c13TagOff:]); got != in.latest[p] {
+					return bad("clean-page-differs-from-disk", fmt.Sprintf("page %d is resident, unpinned and clean, the disk holds tag %#x, latest written %#x", p, got, in.latest[p]))
+				}
 			}
 		} else {
 			// I3 (on disk): a live page that is not resident must be on disk with its latest bytes
